@@ -7,5 +7,13 @@ for f in sorted(glob.glob(os.path.join(ROOT, "seeded", "*", "meta.json"))):
     m = json.load(open(f))
     caught = "; ".join("%s: %s" % (k, ", ".join(v)) for k, v in m.get("caught_by", {}).items()) or "NOT CAUGHT"
     rows.append("| %s | %s | %s | %s | %s |" % (m["id"], m["property"], m["needs"].replace("|", "/"), caught.replace("|", "/"), "missed at first — " + m.get("strengthening", "") if m.get("missed_initially") else "caught as built"))
-print("| id | property | needs to manifest | caught by | history |\n|---|---|---|---|---|")
-print("\n".join(rows))
+table = "| id | property | needs to manifest | caught by | history |\n|---|---|---|---|---|\n" + "\n".join(rows)
+import sys
+if "--update-design" in sys.argv:
+    import re
+    d = os.path.join(ROOT, "DESIGN.md")
+    s = open(d).read()
+    s = re.sub(r"<!-- SEEDED-TABLE-BEGIN -->.*<!-- SEEDED-TABLE-END -->", lambda _: "<!-- SEEDED-TABLE-BEGIN -->\n" + table + "\n<!-- SEEDED-TABLE-END -->", s, flags=re.S)
+    open(d, "w").write(s)
+else:
+    print(table)
